@@ -25,8 +25,9 @@ Definition cv_encode (num : N) : list N :=
 
 (* ---- CollectionVarInt::decode(ptr): value and the advanced slice.
    Err = `bail!` (short input).  The 2/3/4-byte sums cannot leave u32 (first byte is bounded by
-   its mask class); the 5-byte form does `num += THR_4` on a full 32-bit value: [Panic] in the dev
-   profile when it overflows (release wraps). *)
+   its mask class); the 5-byte form adds THR_4 to a full 32-bit value: `num.checked_add(THR_4).context(..)?`
+   = Err when it leaves u32 (Consts_collection.cv5_checked = true; the older `num += THR_4` form, false,
+   was a [Panic] in the dev profile). *)
 Definition cv_decode (ptr : list N) : outcome (N * list N) :=
   match ptr with
   | [] => Err
@@ -57,7 +58,7 @@ Definition cv_decode (ptr : list N) : outcome (N * list N) :=
         let num := N.shiftl (N.shiftl (N.shiftl p1 8 + p2) 8 + p3) 8 + p4 in
         match add_u32 num cv_thr_4 with
         | Some v => Ok (v, r)
-        | None => Panic
+        | None => if cv5_checked then Err else Panic
         end
       | _ => Err
       end
